@@ -193,6 +193,11 @@ func Replay(r *Recording, mode string) ([]Outcome, error) {
 				}
 			}
 			busy = startBusyLoad(n, req.Txs, next, req.Height%2 == 0)
+			if req.Height%2 == 1 && len(req.Txs) > 1 {
+				// workload shaping, not a verdict: give the simulation callers a head start so that they are past the first
+				// transactions when block execution begins (a sleep, unlike waiting for a signal of theirs, orders nothing)
+				time.Sleep(time.Duration(10*min(len(req.Txs), 6)) * time.Millisecond)
+			}
 		}
 		n.EL.SetPhase("finalize")
 		from := n.EL.NCalls()
@@ -275,9 +280,10 @@ func startBusyLoad(n *Node, cur, next [][]byte, checkTx bool) *busyLoad {
 		})
 	}
 	if len(txs) > 0 && !checkTx {
-		// gRPC simulations: two callers. The first walks through this block's transactions in order - simulate one, then
+		// gRPC simulations: one caller (two callers would race with each other on anything shared, and the race detector
+		// reports a memory location once: the report would then not involve block execution). It walks through this block's transactions in order - simulate one, then
 		// let the mempool connection admit it, which moves the check state's sequence to what the next one carries - so that
-		// every transaction's handler runs once next to the block's; afterwards, and in the second caller, everything is
+		// every transaction's handler runs once next to the block's; afterwards everything is
 		// simulated round-robin (the block message, whose sender's sequence is current, always reaches its handler)
 		sim := func(tx []byte) {
 			func() {
@@ -302,7 +308,6 @@ func startBusyLoad(n *Node, cur, next [][]byte, checkTx bool) *busyLoad {
 			}
 			sim(txs[i%len(txs)])
 		})
-		loop(&b.txWG, b.txStop, func(i int) { sim(txs[(i+3)%len(txs)]) })
 	}
 	paths := []string{"/goat.relayer.v1.Query/Relayer", "/goat.goat.v1.Query/EthBlockTip", "/goat.bitcoin.v1.Query/Params", "/goat.bitcoin.v1.Query/BlockTip", "/goat.relayer.v1.Query/Pubkeys", "/goat.locking.v1.Query/Params"}
 	loop(&b.qWG, b.qStop, func(i int) {
